@@ -262,10 +262,10 @@ func genValueCase() *rapid.Generator[ValueCase] {
 		spine := depth >= 4 && rapid.Bool().Draw(t, "spine")
 		budget := 45
 		var v MV
-		switch k := rapid.IntRange(0, 15).Draw(t, "shape"); {
-		case k == 0:
+		switch k := rapid.IntRange(0, 23).Draw(t, "shape"); {
+		case k == 13: // (rapid favours the ends of a range; keep the costly shapes in the middle)
 			v = genDeepMV(t)
-		case k == 1:
+		case k == 11:
 			// a float computed at run time, at top level or inside a container
 			v = genFiniteExpr(t)
 			if rapid.Bool().Draw(t, "nest") {
@@ -541,7 +541,18 @@ func mutateDoc(t *rapid.T, b []byte) []byte {
 }
 
 func genDocBytes(t *rapid.T) []byte {
-	switch c := rapid.IntRange(0, 21).Draw(t, "dock"); {
+	switch c := rapid.IntRange(0, 22).Draw(t, "dock"); {
+	case c == 10:
+		// one deep branch (around and far past the encoder's guard depth of
+		// 64, which the re-dump of the loaded value crosses) next to shallow
+		// members holding numbers
+		n := rapid.OneOf(rapid.IntRange(58, 70), rapid.IntRange(100, 130)).Draw(t, "levels")
+		open, cl := "[", "]"
+		if rapid.Bool().Draw(t, "objs") {
+			open, cl = `{"k":`, "}"
+		}
+		deep := strings.Repeat(open, n) + "[" + genNumber(t) + "," + genDocString(t, false) + "]" + strings.Repeat(cl, n)
+		return []byte(`{"id":` + genNumber(t) + `,"deep":` + deep + `,"ratio":` + genNumber(t) + `}`)
 	case c >= 20:
 		// crafted shapes around numbers that fail: shadowed by a duplicate
 		// key, two different failures in one container
@@ -561,7 +572,7 @@ func genDocBytes(t *rapid.T) []byte {
 		return []byte(strings.Replace(strings.Replace(tmpl, "%s", num("n1"), 1), "%s", num("n2"), 1))
 	case c < 7:
 		return genValidDoc(t)
-	case c < 15:
+	case c < 15: // (c == 10 is taken above)
 		return mutateDoc(t, genValidDoc(t))
 	case c < 17:
 		// token soup
